@@ -433,3 +433,329 @@ async fn one_run(log: &VLog, run: u64, ops: u64) {
     log.ev(json!({"kind": "mp_end", "run": run, "ops": ops}));
     log.flush();
 }
+
+// =====================================================================================================================
+// Concurrent stress (C13, schedule diversity): CheckTx tasks, status / builder-queue readers and the consensus side
+// (block inclusion, invalid-removal, chain-state moves, maintenance) run *concurrently* on a multi-thread runtime
+// against one `Mempool`. CheckTx tasks work on whatever chain-state snapshot was published when they started, which
+// may be older than the one maintenance ran against (as in the real service, where CheckTx reads the latest storage
+// snapshot while FinalizeBlock/Commit proceed). Every call and return is logged with one global sequence number; at the
+// end of each round (all tasks joined = quiescent) maintenance runs against the final chain state and the private
+// structure is walked exactly as in `model_walk`, so the same offline oracle judges it. Readers additionally record
+// every builder queue and every status they were given while the other tasks were running.
+// =====================================================================================================================
+
+type Snap = Arc<cnidarium::StateDelta<cnidarium::Snapshot>>;
+
+struct Shared {
+    published: std::sync::RwLock<Snap>,
+    accepted: std::sync::Mutex<Vec<TransactionId>>,
+    stop_readers: std::sync::atomic::AtomicBool,
+}
+
+async fn jitter(rng: &mut ChaChaRng) {
+    match rng.gen_range(0..10) {
+        0..=3 => {}
+        4..=7 => {
+            for _ in 0..rng.gen_range(1..4) {
+                tokio::task::yield_now().await;
+            }
+        }
+        8 => tokio::time::sleep(Duration::from_micros(rng.gen_range(20..400))).await,
+        _ => tokio::time::sleep(Duration::from_millis(rng.gen_range(1..3))).await,
+    }
+}
+
+#[tokio::test(flavor = "multi_thread", worker_threads = 6)]
+async fn conc_stress() {
+    let log = Arc::new(VLog::open("c13-conc"));
+    let (shard, shards) = vlog::shard();
+    let runs = vlog::env_u64("VERIF_CONC_RUNS", 2);
+    let rounds = vlog::env_u64("VERIF_CONC_ROUNDS", 6);
+    for r in 0..runs {
+        conc_run(&log, shard + r * shards, rounds).await;
+    }
+    log.end();
+}
+
+async fn conc_run(log: &Arc<VLog>, run: u64, rounds: u64) {
+    let mut rng = ChaChaRng::seed_from_u64(vlog::seed().wrapping_mul(104_729).wrapping_add(run) ^ 0xC13C);
+    let mut fixture = Fixture::default_initialized().await;
+    let metrics = fixture.metrics();
+    let parked_max = [6usize, 60, 60, 200][rng.gen_range(0..4)];
+    let mempool = new_mempool(metrics, Duration::from_secs(240), parked_max);
+    let assets: Vec<Denom> = vec!["nria".parse().unwrap(), "denom-x".parse().unwrap()];
+    fixture.state_mut().put_ibc_asset(assets[1].clone().unwrap_trace_prefixed()).unwrap();
+    let nacct = rng.gen_range(2..=4usize);
+    let mut accts: Vec<Acct> = (0..nacct)
+        .map(|i| {
+            let key = SigningKey::new(&mut rng);
+            Acct { addr: key.address_bytes(), key, name: format!("M{i}"), next_build_nonce: 0 }
+        })
+        .collect();
+    accts.push(Acct { key: crate::test_utils::SUDO.clone(), addr: crate::test_utils::SUDO.address_bytes(), name: "SUDO".into(), next_build_nonce: 0 });
+    for a in &accts {
+        let bal = if rng.gen_bool(0.3) { rng.gen_range(2_000..20_000u128) } else { rng.gen_range(100_000..3_000_000u128) };
+        fixture.state_mut().put_account_balance(&a.addr, &assets[0], bal).unwrap();
+        if rng.gen_bool(0.6) {
+            fixture.state_mut().put_account_balance(&a.addr, &assets[1], rng.gen_range(1..50_000u128)).unwrap();
+        }
+    }
+    fixture.state_mut().put_fees(FeeComponents::<RollupDataSubmission>::new(rng.gen_range(0..200u128), rng.gen_range(0..30u128))).unwrap();
+    log.ev(json!({"kind": "mp_start", "run": run, "mode": "concurrent", "ttl_ms": 240_000, "parked_max": parked_max, "per_account_parked_max": MAX_PARKED_TXS_PER_ACCOUNT,
+        "accounts": accts.iter().map(|a| a.name.clone()).collect::<Vec<_>>(), "assets": assets.iter().map(|d| d.to_ibc_prefixed().to_string()).collect::<Vec<_>>()}));
+
+    let shared = Arc::new(Shared {
+        published: std::sync::RwLock::new(Arc::new(fixture.state_mut().fork())),
+        accepted: std::sync::Mutex::new(vec![]),
+        stop_readers: std::sync::atomic::AtomicBool::new(false),
+    });
+    let mut known: HashMap<String, Known> = HashMap::new();
+    let mut live_order: Vec<String> = vec![];
+    let mut height = 10u64;
+    let names: Arc<HashMap<[u8; ADDRESS_LENGTH], String>> = Arc::new(accts.iter().map(|a| (a.addr, a.name.clone())).collect());
+
+    for round in 0..rounds {
+        let t_round = std::time::Instant::now();
+        // ---- build this round's transactions (single-threaded, before anything runs)
+        let mut txs: Vec<(usize, Arc<CheckedTransaction>, serde_json::Value)> = vec![];
+        for ai in 0..accts.len() {
+            let a = &accts[ai];
+            let chain_nonce = fixture.state().get_account_nonce(&a.addr).await.unwrap();
+            let in_pool = {
+                let inner = mempool.inner.read().await;
+                inner.pending.txs().get(&a.addr).map_or(0, |x| x.txs().len()) as u32
+            };
+            let n = if a.name == "SUDO" { rng.gen_range(0..4u32) } else { rng.gen_range(3..14u32) };
+            // mostly continue where this account's previous round stopped (so that parked transactions get their gaps
+            // filled and promotions happen under concurrency); sometimes start again right behind the ready set
+            let base = if rng.gen_bool(0.75) { chain_nonce.max(a.next_build_nonce) } else { chain_nonce + in_pool };
+            let mut top = base;
+            for k in 0..n {
+                let nonce = match rng.gen_range(0..12) {
+                    0 => base + k + rng.gen_range(1..4),               // gap -> parked
+                    1 => chain_nonce + rng.gen_range(0..=in_pool),       // current or already taken (stale once blocks advance)
+                    _ => base + k,
+                };
+                let b = fixture.checked_tx_builder().with_signer(a.key.clone()).with_nonce(nonce);
+                let b = if a.name == "SUDO" {
+                    b.with_action(FeeChange::Transfer(FeeComponents::new(rng.gen_range(0..20), 0)))
+                } else if rng.gen_bool(0.5) {
+                    let asset = assets[rng.gen_range(0..assets.len())].clone();
+                    let amount = match rng.gen_range(0..5) {
+                        0 => rng.gen_range(50_000..400_000),
+                        _ => rng.gen_range(1..3_000),
+                    };
+                    b.with_action(Transfer { to: astria_address(&[9; 20]), amount, asset, fee_asset: assets[0].clone() })
+                } else {
+                    b.with_rollup_data_submission(vec![5u8; rng.gen_range(1..300)])
+                };
+                let tx: Arc<CheckedTransaction> = b.build().await;
+                top = top.max(tx.nonce() + 1);
+                let costs = tx.total_costs(fixture.state()).await.unwrap_or_default();
+                let meta = json!({"acct": a.name, "nonce": tx.nonce(), "group": format!("{:?}", tx.group()), "costs": costs_json(&costs)});
+                txs.push((ai, tx, meta));
+            }
+            accts[ai].next_build_nonce = top;
+        }
+        // distribute over submitters; some transactions are submitted by two tasks (the same bytes racing)
+        let nsub = rng.gen_range(3..=6usize);
+        let mut per: Vec<Vec<(Arc<CheckedTransaction>, serde_json::Value)>> = vec![vec![]; nsub];
+        for (_ai, tx, meta) in &txs {
+            let s = rng.gen_range(0..nsub);
+            per[s].push((tx.clone(), meta.clone()));
+            if rng.gen_bool(0.15) {
+                let s2 = rng.gen_range(0..nsub);
+                per[s2].push((tx.clone(), meta.clone()));
+            }
+        }
+        // each submitter sends mostly in nonce order (as a wallet would) with some local swaps
+        for (s, list) in per.iter_mut().enumerate() {
+            let _ = s;
+            for i in 1..list.len() {
+                if rng.gen_bool(0.15) {
+                    list.swap(i - 1, i);
+                }
+            }
+        }
+        for (_ai, tx, _m) in &txs {
+            known.entry(tx.id().to_string()).or_insert(Known { tx: tx.clone(), acct: 0, nonce: tx.nonce(), group: String::new() });
+        }
+        shared.stop_readers.store(false, std::sync::atomic::Ordering::SeqCst);
+        let mut handles = vec![];
+        for (s, list) in per.into_iter().enumerate() {
+            let (log, shared, mempool) = (log.clone(), shared.clone(), mempool.clone());
+            let mut trng = ChaChaRng::seed_from_u64(rng.next_u64());
+            handles.push(tokio::spawn(async move {
+                for (tx, meta) in list {
+                    jitter(&mut trng).await;
+                    let state: Snap = shared.published.read().unwrap().clone();
+                    let id = tx.id().to_string();
+                    log.ev(json!({"kind": "mc_call", "run": run, "round": round, "task": format!("sub{s}"), "op": "check_tx", "id": id}));
+                    let outcome = crate::service::mempool::check_tx(tx.encoded_bytes().clone(), &*state, &mempool, metrics).await;
+                    let oc = format!("{outcome:?}");
+                    let class = oc.split(|c: char| !c.is_alphanumeric()).next().unwrap_or("").to_string();
+                    let accepted = class == "AddedToPending" || class == "AddedToParked";
+                    if accepted {
+                        shared.accepted.lock().unwrap().push(*tx.id());
+                    }
+                    log.ev(json!({"kind": "mc_ret", "run": run, "round": round, "task": format!("sub{s}"), "op": "check_tx", "id": id, "class": class,
+                        "accepted": accepted, "tx": meta, "detail": if accepted { String::new() } else { oc.chars().take(90).collect::<String>() }}));
+                }
+            }));
+        }
+        let nread = rng.gen_range(1..=3usize);
+        let mut rhandles = vec![];
+        for r in 0..nread {
+            let (log, shared, mempool, names) = (log.clone(), shared.clone(), mempool.clone(), names.clone());
+            let mut trng = ChaChaRng::seed_from_u64(rng.next_u64());
+            rhandles.push(tokio::spawn(async move {
+                let mut iters = 0u32;
+                while !shared.stop_readers.load(std::sync::atomic::Ordering::SeqCst) && iters < 4_000 {
+                    iters += 1;
+                    jitter(&mut trng).await;
+                    if trng.gen_bool(0.4) {
+                        let q = mempool.builder_queue().await;
+                        let queue: Vec<serde_json::Value> = q
+                            .iter()
+                            .map(|t| json!([names.get(t.address_bytes()).cloned().unwrap_or_default(), t.nonce(), format!("{:?}", t.group()), t.id().to_string()]))
+                            .collect();
+                        log.ev(json!({"kind": "mc_queue", "run": run, "round": round, "task": format!("rd{r}"), "queue": queue}));
+                    } else {
+                        let pick = {
+                            let acc = shared.accepted.lock().unwrap();
+                            if acc.is_empty() { None } else { Some(acc[trng.gen_range(0..acc.len())]) }
+                        };
+                        if let Some(tid) = pick {
+                            log.ev(json!({"kind": "mc_call", "run": run, "round": round, "task": format!("rd{r}"), "op": "status", "id": tid.to_string()}));
+                            let st = status_str(mempool.transaction_status(&tid).await);
+                            log.ev(json!({"kind": "mc_ret", "run": run, "round": round, "task": format!("rd{r}"), "op": "status", "id": tid.to_string(), "status": st}));
+                        }
+                    }
+                }
+            }));
+        }
+        // ---- consensus side, on this task, concurrently with the above
+        let blocks = rng.gen_range(2..6);
+        for _b in 0..blocks {
+            jitter(&mut rng).await;
+            tokio::time::sleep(Duration::from_micros(rng.gen_range(100..1500))).await;
+            let queue = mempool.builder_queue().await;
+            let take = if queue.is_empty() { 0 } else { rng.gen_range(0..=queue.len()) };
+            let mut results = HashMap::new();
+            let mut included = vec![];
+            let mut next: HashMap<[u8; ADDRESS_LENGTH], u32> = HashMap::new();
+            let mut failed: Option<Arc<CheckedTransaction>> = None;
+            for tx in queue.iter().take(take) {
+                let addr = *tx.address_bytes();
+                let cur = match next.get(&addr) {
+                    Some(n) => *n,
+                    None => fixture.state().get_account_nonce(&addr).await.unwrap(),
+                };
+                if tx.nonce() != cur {
+                    continue;
+                }
+                let costs = tx.total_costs(fixture.state()).await.unwrap_or_default();
+                let mut affordable = true;
+                for (asset, c) in &costs {
+                    if fixture.state().get_account_balance(&addr, asset).await.unwrap() < *c {
+                        affordable = false;
+                    }
+                }
+                if !affordable {
+                    // the proposer evicts a transaction that fails execution
+                    if failed.is_none() && rng.gen_bool(0.5) {
+                        failed = Some(tx.clone());
+                    }
+                    continue;
+                }
+                for (asset, c) in &costs {
+                    let b = fixture.state().get_account_balance(&addr, asset).await.unwrap();
+                    fixture.state_mut().put_account_balance(&addr, asset, b - c).unwrap();
+                }
+                next.insert(addr, cur + 1);
+                results.insert(*tx.id(), Arc::new(ExecTxResult::default()));
+                included.push(tx.id().to_string());
+            }
+            if let Some(tx) = failed {
+                log.ev(json!({"kind": "mc_call", "run": run, "round": round, "task": "consensus", "op": "remove_invalid", "id": tx.id().to_string()}));
+                mempool.remove_tx_invalid(tx.clone(), RemovalReason::FailedExecution("verif".into())).await;
+                log.ev(json!({"kind": "mc_ret", "run": run, "round": round, "task": "consensus", "op": "remove_invalid", "id": tx.id().to_string()}));
+            }
+            for (addr, n) in next {
+                fixture.state_mut().put_account_nonce(&addr, n).unwrap();
+            }
+            // other chain-state moves: funds arriving / leaving, nonces consumed through another node
+            if rng.gen_bool(0.35) {
+                let ai = rng.gen_range(0..accts.len());
+                let asset = assets[rng.gen_range(0..assets.len())].clone();
+                let old = fixture.state().get_account_balance(&accts[ai].addr, &asset).await.unwrap();
+                let new = match rng.gen_range(0..4) {
+                    0 => 0,
+                    1 => old / 2,
+                    2 => old + rng.gen_range(0..80_000),
+                    _ => rng.gen_range(0..6_000),
+                };
+                fixture.state_mut().put_account_balance(&accts[ai].addr, &asset, new).unwrap();
+            }
+            if rng.gen_bool(0.15) {
+                let ai = rng.gen_range(0..accts.len());
+                let old = fixture.state().get_account_nonce(&accts[ai].addr).await.unwrap();
+                fixture.state_mut().put_account_nonce(&accts[ai].addr, old + rng.gen_range(1..3)).unwrap();
+            }
+            height += 1;
+            let publish_first = rng.gen_bool(0.5);
+            if publish_first {
+                *shared.published.write().unwrap() = Arc::new(fixture.state_mut().fork());
+                jitter(&mut rng).await;
+            }
+            log.ev(json!({"kind": "mc_call", "run": run, "round": round, "task": "consensus", "op": "maintenance", "height": height, "included": included}));
+            mempool.run_maintenance(fixture.state(), false, results, height).await;
+            log.ev(json!({"kind": "mc_ret", "run": run, "round": round, "task": "consensus", "op": "maintenance", "height": height}));
+            if !publish_first {
+                jitter(&mut rng).await;
+                *shared.published.write().unwrap() = Arc::new(fixture.state_mut().fork());
+            }
+        }
+        for h in handles {
+            h.await.expect("submitter task");
+        }
+        shared.stop_readers.store(true, std::sync::atomic::Ordering::SeqCst);
+        for h in rhandles {
+            h.await.expect("reader task");
+        }
+        // ---- quiescent point: final maintenance against the final chain state, then the same observation as model_walk
+        *shared.published.write().unwrap() = Arc::new(fixture.state_mut().fork());
+        height += 1;
+        mempool.run_maintenance(fixture.state(), false, HashMap::new(), height).await;
+        let mut shown = serde_json::Map::new();
+        for a in &accts {
+            let n = fixture.state().get_account_nonce(&a.addr).await.unwrap();
+            let b = get_account_balances(fixture.state(), &a.addr).await.unwrap();
+            shown.insert(a.name.clone(), json!({"nonce": n, "balances": costs_json(&b)}));
+        }
+        for id in shared.accepted.lock().unwrap().iter() {
+            let s = id.to_string();
+            if !live_order.contains(&s) {
+                live_order.push(s);
+            }
+        }
+        let w = walk(&mempool, &accts).await;
+        let queue: Vec<serde_json::Value> = mempool
+            .builder_queue()
+            .await
+            .iter()
+            .map(|t| json!([names.get(t.address_bytes()).cloned().unwrap_or_default(), t.nonce(), format!("{:?}", t.group()), t.id().to_string()]))
+            .collect();
+        let mut status = serde_json::Map::new();
+        for id in &live_order {
+            let tid = *known[id].tx.id();
+            status.insert(id.clone(), json!(status_str(mempool.transaction_status(&tid).await)));
+        }
+        log.ev(json!({"kind": "mp_op", "run": run, "n": round, "op": {"op": "conc_round", "maintenance": true, "chain": shown, "submitters": nsub, "readers": nread,
+            "blocks": blocks, "round_ms": t_round.elapsed().as_millis() as u64}, "walk": w, "queue": queue, "status": status, "recosted": serde_json::Value::Null}));
+        log.flush();
+    }
+    log.ev(json!({"kind": "mp_end", "run": run, "ops": rounds}));
+    log.flush();
+}
